@@ -21,13 +21,13 @@ func Operate[A any, B any, R any](ac <-chan A, bc <-chan B, o func(A, B) R) <-ch
 		for {
 			an, ok := <-ac
 			if !ok {
-				Drain(bc)
+				go Drain(bc)
 				break
 			}
 
 			bn, ok := <-bc
 			if !ok {
-				Drain(ac)
+				go Drain(ac)
 				break
 			}
 
